@@ -115,8 +115,8 @@ Fixpoint parse_irecord (puf : bool) (fs : list ifield) (c : N) (i : bytes) : res
 Definition has_at_least (n : N) (l : bytes) : bool :=
   match take (N.to_nat n) l with Some _ => true | None => false end.
 
-(* FieldParser::parse: decode one record, go on while at least as many bytes remain as the
-   record just read took *)
+(* FieldParser::parse: decode one record, go on while the record just read took at least one
+   byte and at least as many bytes remain *)
 Fixpoint parse_irecords (fuel : nat) (puf : bool) (fs : list ifield) (i : bytes) : res (list ientry) :=
   match fuel with
   | O => Err EFuel
@@ -124,7 +124,7 @@ Fixpoint parse_irecords (fuel : nat) (puf : bool) (fs : list ifield) (i : bytes)
       match parse_irecord puf fs 0 i with
       | Err e => Err e
       | Ok (ents, taken) r =>
-          if has_at_least taken r then
+          if (0 <? taken) && has_at_least taken r then
             match parse_irecords fuel' puf fs r with
             | Ok more r' => Ok (ents ++ more) r'
             | Err e => Err e
